@@ -50,7 +50,7 @@ def run(run):
     rng = np.random.default_rng(run.seed)
     quick = run.tier == 'quick'
     fx = inputs.fixture_sgz()
-    keep = ('padding_6x7', 'small-2d', 'small-irregular', 'small_2bit-64x64', 'small_8bit-8x8', 'small_8bit.', 'small_4bit') if quick else \
+    keep = ('padding_6x7', 'small-2d', 'small-irregular', 'small_2bit-64x64', 'small_8bit-8x8', 'small_8bit.', 'small_4bit', 'small_v0.0.1') if quick else \
         ('padding_6x7', 'padding_8x5', 'small-2d', 'small-irregular', 'small_2bit-64x64', 'small_8bit-8x8', 'small_8bit.', 'small_4bit',
          'small_hole', 'small_05bit', 'small-dec', 'small_v0.0.1', 'small_1bit')
     fx = [f for f in fx if any(k in f for k in keep)]
